@@ -195,10 +195,12 @@ func (c *Conn) call(ctx context.Context, msg *message.UpstreamCall) (*message.Up
 
 RESEND:
 	var sentOn *wire.ClientConn
+	var outages uint64
 	err := c.send(ctx, func(ctx context.Context) error {
 		c.wireConnMu.Lock()
 		defer c.wireConnMu.Unlock()
 		sentOn = c.wireConn
+		outages = c.state.Outages()
 		return c.wireConn.SendUpstreamCall(ctx, msg)
 	})
 	if err != nil {
@@ -215,10 +217,8 @@ RESEND:
 	case <-sentOn.Closed():
 		// the connection was lost before the ack arrived: send the call again after recovery
 		// (send waits for the reconnect and fails with ErrConnectionClosed if the Conn was closed)
-		c.wireConnMu.Lock()
-		stale := c.wireConn == sentOn
-		c.wireConnMu.Unlock()
-		if stale && !c.state.CompareAndSwapNot(connStatusClosed, connStatusReconnecting) {
+		// (checked and marked in one step: an outage that was already noticed is not reported a second time)
+		if !c.state.MarkReconnectingSince(outages) {
 			return nil, errors.ErrConnectionClosed
 		}
 		goto RESEND
